@@ -307,6 +307,54 @@ func ruleR26() *Rule {
 						c.add(statusOf(len(bad) == 0), name+"/count-loop", c.p.instrPos(iff), "the field loop of "+name+" covers every field record from the first, leaving early only on error", "fields can be skipped", t.props, bad)
 					}
 				}
+				if n == 0 && !strings.Contains(t.param, ":") {
+					// the list handed whole to helpers of the package that walk it: judged there
+					var prm *ssa.Parameter
+					for _, q := range fn.Params {
+						if canonParamName(q) == t.param {
+							prm = q
+						}
+					}
+					if prm != nil {
+						for _, cs := range callSites(fn) {
+							g := staticCallee(cs)
+							if g == nil || !c.p.InZap(g) || len(g.Blocks) == 0 || g == fn {
+								continue
+							}
+							for ai, a := range cs.Common().Args {
+								if root(a) != ssa.Value(prm) || ai >= len(g.Params) {
+									continue
+								}
+								for _, l := range naturalLoops(g) {
+									rs := l.rangedSlice()
+									if rs == nil || root(rs) != ssa.Value(g.Params[ai]) {
+										continue
+									}
+									n++
+									var bad []string
+									if start, known := l.startIndex(); known && start > 0 {
+										bad = append(bad, fmt.Sprintf("the loop starts at index %d", start))
+									}
+									for b := range l.blocks {
+										if b == l.header {
+											continue
+										}
+										for _, sx := range b.Succs {
+											if l.blocks[sx] || leadsToFailureReturn(sx, l, 0, map[*ssa.BasicBlock]bool{}) || pureSearchLoop(c.p, l) {
+												continue
+											}
+											bad = append(bad, "early exit from the loop: "+describeInstr(c.p, b.Instrs[len(b.Instrs)-1]))
+										}
+									}
+									sort.Strings(bad)
+									c.add(statusOf(len(bad) == 0), fmt.Sprintf("%s/range-%s/in-%s#%d", name, t.param, g.Name(), n), c.p.instrPos(l.header.Instrs[len(l.header.Instrs)-1]),
+										fmt.Sprintf("the loop over %s that %s hands to %s processes every element: it is left early only by returning an error", t.param, name, funcShortName(g)),
+										"the loop can stop before the end of the list without reporting an error: the remaining elements are silently ignored", t.props, bad)
+								}
+							}
+						}
+					}
+				}
 				if n == 0 {
 					c.undecidedP(t.props, name+"/range-"+t.param, c.fpos(fn), "the loop over "+t.param+" is found in "+name, "no range loop over that parameter (rewritten into an idiom this rule does not read)")
 				}
@@ -1300,12 +1348,14 @@ func ruleR20() *Rule {
 			if fn == nil {
 				return
 			}
-			recv := fn.Params[0]
 			const (
 				evFresh    = 1 << 0 // the state is a new allocation
 				evCompared = 1 << 1 // its segment was compared with the receiver
 				evStale    = 1 << 2 // ... and differed; readers not yet dropped
 			)
+			validators := map[*ssa.Function]bool{}
+			analyse := func(fn *ssa.Function) (*pathAnalysis, int) {
+				recv := fn.Params[0]
 			pa := newPathAnalysis(fn, func(in ssa.Instruction, ev uint64, _ bool) []uint64 {
 				switch x := in.(type) {
 				case *ssa.Alloc:
@@ -1326,6 +1376,10 @@ func ruleR20() *Rule {
 						}
 					}
 				case ssa.CallInstruction:
+					// a helper of the segment that hands out a validated state (`dvs := s.docVisitStateFor(fields, dvsIn)`)
+					if f := staticCallee(x); f != nil && validators[f] && len(x.Common().Args) > 0 && root(x.Common().Args[0]) == ssa.Value(recv) {
+						return []uint64{(ev | evFresh) &^ evStale}
+					}
 					if b, ok := x.Common().Value.(*ssa.Builtin); ok && b.Name() == "clear" && len(x.Common().Args) == 1 && isLoadOfField(x.Common().Args[0], "docVisitState", "dvrs") {
 						return []uint64{ev &^ evStale}
 					}
@@ -1423,7 +1477,41 @@ func ruleR20() *Rule {
 				}
 				return true
 			}
-			pa.run(0)
+				pa.run(0)
+				return pa, nCmp
+			}
+			// helpers of the segment that hand out a visit state: validated at every return?
+			for _, f := range c.p.ZapFuncs {
+				if f == fn || f.Parent() != nil || len(f.Blocks) == 0 || f.Signature.Recv() == nil || !isNamed(f.Signature.Recv().Type(), zapPkgPath, "SegmentBase") {
+					continue
+				}
+				res := f.Signature.Results()
+				if res.Len() != 1 || !isNamedPtr(res.At(0).Type(), "docVisitState") {
+					continue
+				}
+				vpa, vcmp := analyse(f)
+				okv := vcmp > 0
+				for _, ret := range returnsOf(f) {
+					for _, ev := range vpa.statesBefore(ret) {
+						if (ev&evFresh == 0 && ev&evCompared == 0) || ev&evStale != 0 {
+							okv = false
+						}
+					}
+				}
+				if okv {
+					validators[f] = true
+				}
+			}
+			pa, nCmp := analyse(fn)
+			callsValidator := false
+			for _, cs := range callSites(fn) {
+				if f := staticCallee(cs); f != nil && validators[f] {
+					callsValidator = true
+				}
+			}
+			if callsValidator {
+				nCmp++
+			}
 			c.check(nCmp > 0, "compare-exists", c.fpos(fn), "VisitDocValues compares a reused state's segment with the segment being visited", "no comparison of docVisitState.segment with the receiver: a state reused on another segment keeps readers pointing into the old segment's bytes")
 			n := 0
 			okAll := true
@@ -1448,6 +1536,52 @@ func ruleR20() *Rule {
 					}
 				}
 			})
+			// helpers that are handed the state and read its readers: every caller hands them a validated one
+			for _, u := range c.p.ZapFuncs {
+				if u == fn || validators[u] || u.Parent() != nil || len(u.Blocks) == 0 {
+					continue
+				}
+				pi := -1
+				for i, prm := range u.Params {
+					if isNamedPtr(prm.Type(), "docVisitState") {
+						pi = i
+					}
+				}
+				if pi < 0 {
+					continue
+				}
+				reads := false
+				eachInstr(u, func(_ *ssa.BasicBlock, in ssa.Instruction) {
+					if ld, ok := in.(*ssa.UnOp); ok && isLoadOfField(ld, "docVisitState", "dvrs") && !readersUseIsBenign(ld) {
+						if _, _, base, ok := loadedField(ld); ok && root(base) == ssa.Value(u.Params[pi]) {
+							reads = true
+						}
+					}
+				})
+				if !reads {
+					continue
+				}
+				n++
+				for _, cs := range c.p.callersOf(u) {
+					if !c.p.InZap(cs.Parent()) || pi >= len(cs.Common().Args) {
+						continue
+					}
+					arg := root(cs.Common().Args[pi])
+					okArg := false
+					if call, ok := arg.(*ssa.Call); ok {
+						if f := call.Call.StaticCallee(); f != nil && validators[f] {
+							okArg = true
+						}
+					}
+					if al, ok := arg.(*ssa.Alloc); ok && isNamed(al.Type(), zapPkgPath, "docVisitState") {
+						okArg = true
+					}
+					if !okArg {
+						okAll = false
+						w = append(w, funcShortName(u)+" reads the readers of a state that "+funcShortName(cs.Parent())+" hands it without validating it: "+describeInstr(c.p, cs))
+					}
+				}
+			}
 			c.check(okAll && n > 0, "readers-validated", c.fpos(fn), "the cloned readers of a visit state are used only if the state is new, or was checked to belong to this segment, or was emptied after the check failed",
 				"stale readers of another segment can be used", uniq(w)...)
 		},
@@ -1822,6 +1956,31 @@ func ruleR3() *Rule {
 			}
 			if len(ctors) < 2 {
 				return
+			}
+			// any other function that allocates the segment it hands back is a constructor too
+			// (`openFile(f, path)` shared by Open and a new OpenFile)
+			for _, fn := range p.ZapFuncs {
+				if ctors[fn] || fn.Parent() != nil {
+					continue
+				}
+				var allocs []*ssa.Alloc
+				eachInstr(fn, func(_ *ssa.BasicBlock, in ssa.Instruction) {
+					if al, ok := in.(*ssa.Alloc); ok && al.Heap && (isNamed(al.Type(), zapPkgPath, "Segment") || isNamed(al.Type(), zapPkgPath, "SegmentBase")) {
+						allocs = append(allocs, al)
+					}
+				})
+				if len(allocs) == 0 {
+					continue
+				}
+				for _, ret := range returnsOf(fn) {
+					for _, r := range ret.Results {
+						for _, al := range allocs {
+							if root(r) == ssa.Value(al) {
+								ctors[fn] = true
+							}
+						}
+					}
+				}
 			}
 			// writers
 			type wsite struct {
